@@ -150,7 +150,14 @@ def main():
         rp = json.loads(Path(a.replay).read_text())
         cases = [core.unjson(rp["input"])]
     else:
-        cases = list(P.corpus()) + list(P.gen(rng, tier, a.cases))
+        try:
+            cases = list(P.corpus()) + list(P.gen(rng, tier, a.cases))
+        except Exception:
+            # a defect of the generator, not of the code under test: say so, fall back to the corpus and a fixed seed
+            notes.append("case generation crashed for this seed (harness defect, reported, not a violation): " + traceback.format_exc()[-800:])
+            print("HARNESS-NOTE: case generation crashed for seed", seed, "- falling back to seed 0 cases", file=sys.stderr)
+            rng = core.Rng(sum(map(ord, pid)))
+            cases = list(P.corpus()) + list(P.gen(rng, tier, a.cases))
     obs_list = []
     terms = []
     oracle_fail = []
